@@ -61,19 +61,12 @@ func (ft *fnTrans) call(x ssa.Value, c *ssa.CallCommon, h *Heap, reach string) {
 		}
 		for i, rs := range resSorts {
 			if det && (rs == "Str" || rs == "Int" || rs == "Bool") {
-				fn := q(fmt.Sprintf("uf:%s#%d", key, i))
 				var as, ts []string
 				for _, a := range args {
 					as = append(as, vc.sorts.sortOf(a.Ty))
 					ts = append(ts, a.T)
 				}
-				if len(args) == 0 {
-					vc.global(fn, fmt.Sprintf("(declare-const %s %s)", fn, rs))
-					results = append(results, fn)
-				} else {
-					vc.global(fn, fmt.Sprintf("(declare-fun %s (%s) %s)", fn, strings.Join(as, " "), rs))
-					results = append(results, "("+fn+" "+strings.Join(ts, " ")+")")
-				}
+				results = append(results, vc.detUF(key, i, as, ts, rs))
 				continue
 			}
 			// allocation may happen inside
@@ -155,6 +148,11 @@ func calleeParamNames(callee *ssa.Function, sig *types.Signature, invoke bool) [
 }
 
 func (ft *fnTrans) calleePkg(fc *FuncContract, callee *ssa.Function, c *ssa.CallCommon) *types.Package {
+	if fc.Extern {
+		if p := ft.vc.P.typesPkg(fc.DeclPkg); p != nil {
+			return p
+		}
+	}
 	if callee != nil {
 		if callee.Pkg != nil {
 			return callee.Pkg.Pkg
@@ -569,4 +567,16 @@ func (ft *fnTrans) frameGoal(comp, ref string) string {
 		}
 	}
 	return or(alts...)
+}
+
+
+// detUF: the i-th result of a deterministic library function as an uninterpreted function of its value arguments
+func (vc *VC) detUF(key string, i int, argSorts, argTerms []string, resSort string) string {
+	fn := q(fmt.Sprintf("uf:%s#%d", key, i))
+	if len(argTerms) == 0 {
+		vc.global(fn, fmt.Sprintf("(declare-const %s %s)", fn, resSort))
+		return fn
+	}
+	vc.global(fn, fmt.Sprintf("(declare-fun %s (%s) %s)", fn, strings.Join(argSorts, " "), resSort))
+	return "(" + fn + " " + strings.Join(argTerms, " ") + ")"
 }
